@@ -60,6 +60,7 @@ THEOREMS = [
     "Optyx.Props.LPFastTie.aligned_iff",
     "Optyx.Props.CompileEntryTie.compileExpression_eq",
     "Optyx.Props.CompileEntryTie.param_run",
+    "Optyx.Props.ConstraintTie.getVariables_text",
     "Optyx.Props.PinsC06.anchors",
 ]
 ASSUMPTIONS = [
